@@ -305,7 +305,7 @@ def run(ctx):
     progs = [S.gen_contention(rng) for _ in range(n_cont)]
     ctx.sample(progs[0])
     explore(ctx, progs, label="contention: ")
-    progs = [S.gen_chain(rng) for _ in range(n_chain)]
+    progs = [S.gen_chain(rng) for _ in range(n_chain)] + [S.gen_inflight(rng) for _ in range(n_chain // 7)]
     ctx.sample(progs[0])
     for i in range(0, len(progs), 1500):
         explore(ctx, progs[i:i + 1500], label="chain: ")
